@@ -7,8 +7,11 @@ The semantics are the ones the property statement fixes:
   * arithmetic and string operations propagate missing values;
   * everything else is Python: // and % floor, slicing/indexing with Python normalisation, in/startswith/endswith, len,
     abs, min/max, conditional expressions, sum() of nothing is 0, min()/max()/avg() of nothing is None.
-Where Python itself raises (ZeroDivisionError, IndexError, ordering None) there is no result to compare with: the
-condition under which that happens is collected in `env.undefined` and the obligation assumes it away.
+Where Python itself raises (ZeroDivisionError, IndexError, arithmetic / string methods / len / subscript / `in <str>` on a
+missing value, attribute of a missing reference, ordering None in min/max) there is no result to compare with: the
+condition under which that happens - guarded by the short-circuit path that reaches it - is collected in `env.undefined`
+and the obligation assumes it away.  Comparisons with a missing operand are NOT treated that way: the property fixes
+three-valued logic for them.
 """
 import ast
 import z3
@@ -243,11 +246,13 @@ def arith(env, op, a, b):
         return null(other.sort if other.sort != 'null' else 'null')
     if a.sort == 'str' or b.sort == 'str':
         if op == '+' and a.sort == b.sort == 'str':
+            env.undefined.append(z3.Or(a.n, b.n))          # Python: TypeError
             return SV('str', z3.Concat(a.t, b.t), z3.Or(a.n, b.n))
         raise Unmodelled('string arithmetic %s' % op)
     x, y = unify(a, b)
     if x.sort == 'bool': x, y = to_int(x), to_int(y)
     n = z3.Or(x.n, y.n)
+    env.undefined.append(n)              # Python: TypeError (unsupported operand type NoneType)
     if op == '+': return SV(x.sort, x.t + y.t, n)
     if op == '-': return SV(x.sort, x.t - y.t, n)
     if op == '*': return SV(x.sort, x.t * y.t, n)
@@ -334,6 +339,7 @@ def contains(env, item, container_node):
             item = as_data(item)
             if not (isinstance(item, SV) and item.sort in ('str', 'null')): raise Unmodelled('substring test of a non-string')
             if item.sort == 'null': return cond(FALSE, TRUE)
+            env.undefined.append(z3.Or(c.n, item.n))       # Python: TypeError ('in <string>' needs strings)
             if env.dialect == 'Oracle':
                 env.region('oracle-empty-string-is-null', z3.Or(z3.And(z3.Not(c.n), z3.Length(c.t) == 0), z3.And(z3.Not(item.n), z3.Length(item.t) == 0)))
             return cond(z3.Contains(c.t, item.t), z3.Or(c.n, item.n))
@@ -381,6 +387,7 @@ def _unary(node, env):
         if not isinstance(v, SV) or v.sort not in ('int', 'real', 'bool', 'null'): raise Unmodelled('negation')
         if v.sort == 'null': return v
         if v.sort == 'bool': v = to_int(v)
+        env.undefined.append(v.n)                          # Python: bad operand type for unary -: 'NoneType'
         return SV(v.sort, -v.t, v.n)
     if isinstance(node.op, ast.UAdd): return v
     raise Unmodelled('unary %s' % type(node.op).__name__)
@@ -403,6 +410,7 @@ def _ifexp(node, env):
 def _subscript(node, env):
     v = as_data(ev(node.value, env))
     if not (isinstance(v, SV) and v.sort == 'str'): raise Unmodelled('subscript of a non-string')
+    env.undefined.append(v.n)                              # Python: 'NoneType' object is not subscriptable
     n = z3.Length(v.t)
     sl = node.slice
     if isinstance(sl, ast.Slice):
@@ -537,7 +545,9 @@ def _call(node, env):
         if name in ('len', 'count') and len(args) == 1:
             v = as_data(ev(args[0], env))
             if isinstance(v, SV):
-                if name == 'len' and v.sort == 'str': return SV('int', z3.Length(v.t), v.n)
+                if name == 'len' and v.sort == 'str':
+                    env.undefined.append(v.n)              # Python: object of type 'NoneType' has no len()
+                    return SV('int', z3.Length(v.t), v.n)
                 raise Unmodelled('%s of a scalar' % name)
             return aggregate(env, name, v)
         if name in ('sum', 'avg') and len(args) == 1:
@@ -559,6 +569,7 @@ def _call(node, env):
             v = as_data(ev(args[0], env))
             if not isinstance(v, SV) or v.sort not in ('int', 'real', 'bool'): raise Unmodelled('abs')
             if v.sort == 'bool': v = to_int(v)
+            env.undefined.append(v.n)                      # Python: bad operand type for abs(): 'NoneType'
             return SV(v.sort, z3.If(v.t < 0, -v.t, v.t), v.n)
         if name == 'exists' and len(args) == 1:
             return truth(env, ev(args[0], env))
@@ -592,7 +603,10 @@ def _call(node, env):
         m = f.attr
         if isinstance(recv, SV) and recv.sort in ('str', 'null'):
             if recv.sort == 'null': raise Unmodelled('method of None')
+            env.undefined.append(recv.n)                   # Python: 'NoneType' object has no attribute ...
             args = [as_data(ev(a, env)) for a in node.args]
+            for a_ in args:
+                if isinstance(a_, SV): env.undefined.append(a_.n)      # Python: TypeError (must be str, not None)
             if m in ('startswith', 'endswith') and len(args) == 1 and isinstance(args[0], SV) and args[0].sort == 'str':
                 if env.dialect == 'Oracle':
                     env.region('oracle-empty-string-is-null', z3.Or(z3.And(z3.Not(recv.n), z3.Length(recv.t) == 0), z3.And(z3.Not(args[0].n), z3.Length(args[0].t) == 0)))
